@@ -21,6 +21,51 @@ META = {
         'outside': ['FASTA text of the output', 'rayon schedule of pseudoalignment (sequential model)', 'references longer than the bounds', 'k > 7 for the writer (its code depends on k only through h)', 'generic_modes::map beyond the calls listed'],
         'assumptions': ['Kani/CBMC model of rustc MIR semantics', 'the AlnWriter representation invariant of DESIGN appendix B (checked inductive: init + step; its adequacy is cross-checked by C04.hist without the invariant)', 'centres arrive in reference order and are valid (delivered by RefSka::new/map: C01.win, C04.map)', 'library models in /verif/models'],
     },
+    'C02': {
+        'bounds': 'strand symmetry and case independence: all odd k (u64 quick; u128 thorough), one window; column permutation: 2 samples x 2 keys (3 x 3 thorough)',
+        'outside': ['line re-wrapping and gzip (needletail/flate2 I/O: not encodable)', 'record permutation and record-level reverse complement follow by composition (window bijection + order-independent accumulation C01.acc); the composition step is an argument, not a solver result'],
+        'assumptions': ['Kani/CBMC model of rustc MIR semantics', 'hashbrown/ndarray models in /verif/models'],
+    },
+    'C03': {
+        'bounds': 'table construction: 2 samples x 2 k-mers (3 x 3 thorough); FASTA writer: <= 2 x 3; filters: see C06',
+        'outside': ['the end-to-end statement (ancestor sequences, planted SNPs) beyond the kernels listed: build = C01/C02, table = C03.new, filter = C06, writer = C03.fasta; the composition is argued in DESIGN.md, only the kernels are solver-checked', 'more than 3 samples'],
+        'assumptions': ['Kani/CBMC model of rustc MIR semantics', 'hashbrown/ndarray/needletail::write_fasta models in /verif/models'],
+    },
+    'C05': {
+        'bounds': 'coordinate iterator: 3 contigs of length 1..=4 (4 x 1..=6 thorough); REF mapping: all 256 bytes',
+        'outside': ['write_vcf itself (rayon pseudo-alignment, genotype strings via to_string, noodles-vcf formatting): allele numbering, "." for "-", header and sample order are NOT decided by this check', 'empty contigs'],
+        'assumptions': ['Kani/CBMC model of rustc MIR semantics', 'every contig is non-empty'],
+    },
+    'C07': {
+        'bounds': 'extend: 1+2 and 2+1 samples over a 2-key universe, all 16 presence patterns (quick: 6 by VERIF_SEED); round trip: 2 x 3; refusal: k and strand mismatch',
+        'outside': ['generic_modes::merge file handling ("no output file is written" holds because save_skf follows the panicking call: read, not solver-checked)', '128-bit files as files (the dictionary code is width-generic)', 'more than 3 samples / 2 keys'],
+        'assumptions': ['Kani/CBMC model of rustc MIR semantics', 'hashbrown/ndarray models in /verif/models (iteration order = insertion order)'],
+    },
+    'C08': {
+        'bounds': '2 k-mers x 3 samples; all 6 non-empty proper subsets (quick: 2), names in either order; refusals: absent name, all names, no name',
+        'outside': ['reading names one per line from a file (get_input_list: File/BufReader, not encodable) -- the >= 2 columns defect named by the property lives there and is NOT detected by this technique', 'duplicate names on the command line'],
+        'assumptions': ['Kani/CBMC model of rustc MIR semantics', 'hashbrown/ndarray models', 'MergeSkaArray::save replaced by a call counter (environment stub)'],
+    },
+    'C10': {
+        'bounds': 'readers ignore stored counts: 1 k-mer x 3 samples, arbitrary stored count, 4 flag combinations; operations (delete, weed, merge round trip, recount) on 2 x 3 tables: shared with C06.cnt, C07.rt, C08, C13',
+        'outside': ['operation sequences longer than one step are covered by the argument "the only carried state besides k/strand/names/k-mers/bases is variant_count, and its only reader ignores it"; save/reload (C09) is not encodable'],
+        'assumptions': ['Kani/CBMC model of rustc MIR semantics', 'filter() is the only reader of variant_count (established by reading the code, re-checked by grep in the driver is NOT done)'],
+    },
+    'C12': {
+        'bounds': 'quality threshold: all (quality, min_qual) pairs; windows under the three rules: k=5, reads <= 8; read hash: k <= 7 every window (quick), all k on 3-position slices; counting filter: k=5, 3 sightings',
+        'outside': ['the < 0.1% collision rate (a statistical statement)', 'two-file glue of add_file_kmers for reads', 'quality bytes < 33 (invalid FASTQ)'],
+        'assumptions': ['Kani/CBMC model of rustc MIR semantics', 'hashbrown model', 'Bloom buffer of 4 words built directly (KmerFilter::init not executed)'],
+    },
+    'C13': {
+        'bounds': '2 k-mers x 2 samples, weed list <= 2 values of a 3-value universe, both directions, idempotence (thorough); wrapper: 2 x 3 / 1 x 3',
+        'outside': ['the weed k-mer set as a function of seqs.fa (= RefSka::new, see C04.ref) composed with weed', 'tables beyond 2 x 3'],
+        'assumptions': ['Kani/CBMC model of rustc MIR semantics', 'hashbrown/ndarray models', 'MergeSkaArray::save replaced by a call counter (environment stub)'],
+    },
+    'C14': {
+        'bounds': 'pair kernel: 4 k-mers; all pairs: 2 k-mers x 3 samples; wrapper: 1 k-mer x 2..3 samples, min_freq in {0, 0.5, 1}, both ambiguity settings',
+        'outside': ['text of the output ({:.2}/{:.5} formatting)', 'the progress bar', 'more than 3 samples', 'ambiguity codes in the pair kernel beyond base_to_prob (C15.prob)', 'thread count (sequential rayon model)'],
+        'assumptions': ['Kani/CBMC model of rustc MIR semantics', 'CBMC IEEE-754 semantics for the f64 arithmetic', 'ndarray/hashbrown/rayon(sequential) models', 'MergeSkaArray::distance replaced by a recorder in the wrapper obligations'],
+    },
     'C16': {
         'bounds': 'u64: all odd k in 5..=31; u128: all odd k in 5..=63; windows of k+2 bases for rolling; see per-obligation bounds',
         'outside': ['String-producing decoders decode_kmer / skalo_decode_kmer unless listed as decided', 'hash_val (ahash)'],
